@@ -1,6 +1,7 @@
 //! Conformance harness: drives the real code built from /repo's working tree (hooks on) from
 //! TLC-generated behaviours, and records real executions for trace validation.
 mod agg;
+mod e2e;
 mod engine;
 mod gadgets;
 mod jsoncaps;
@@ -48,6 +49,7 @@ fn main() -> Result<()> {
         "shuffle-record" => provers::shuffle_record(&args[2], args[3].parse()?, args[4].parse()?, args[5].parse()?, seed()),
         "recursion-replay" => agg::recursion_replay(&args[2], &args[3]),
         "aggregator-replay" => agg::aggregator_replay(&args[2], &args[3], &args[4]),
+        "e2e-replay" => e2e::e2e_replay(&args[2], &args[3], &args[4], seed()),
         "leafapi-replay" => leafapi::api_replay(&args[2], &args[3], seed(), args[4].parse()?),
         "merkle-replay" => leafapi::merkle_replay(&args[2], &args[3], seed()),
         _ => Err(anyhow!("unknown subcommand {cmd}")),
